@@ -49,6 +49,7 @@ type Exec struct {
 	Alts  []Alt             `json:"a,omitempty"`  // parts of a combination, for localising a violation
 	Iso   bool              `json:"i,omitempty"`  // run in a child process of the worker (may legitimately be able to kill the process)
 	Test  string            `json:"ts,omitempty"` // tester: complete test file ("" = Body wrapped as `// @scope: <Scope>` + sub test_c08)
+	Act   bool              `json:"ac,omitempty"` // http: the simulator answers with the actual response (context.WithActualResponse), not the process document
 }
 
 // Alt is one part of a combined program run alone.
@@ -361,7 +362,11 @@ func runHTTP(e *Exec) (ho httpObs, program string) {
 	if len(e.Mods) > 0 {
 		rs = &mapResolver{main: mainVCL, mods: e.Mods}
 	}
-	it := interpreter.New(icontext.WithResolver(rs))
+	opts := []icontext.Option{icontext.WithResolver(rs)}
+	if e.Act {
+		opts = append(opts, icontext.WithActualResponse(true))
+	}
+	it := interpreter.New(opts...)
 	ho.class = "ok"
 	for ri, raw := range e.Reqs {
 		req, err := parseRawRequest(raw)
@@ -385,6 +390,11 @@ func runHTTP(e *Exec) (ho httpObs, program string) {
 			return // the interpreter's mutex is still held: abandon the instance
 		}
 		body := rec.Body.Bytes()
+		if e.Act {
+			// any response the recorder accepted is a response; only a crash / budget is judged
+			ho.replies = append(ho.replies, fmt.Sprintf("actual-%dxx", rec.Code/100))
+			continue
+		}
 		var rp reply
 		jsonErr := json.Unmarshal(body, &rp)
 		cls := ""
